@@ -4,7 +4,7 @@ import os
 import random
 
 from . import pool, tlc
-from .common import NCPU, Report, ToolError, build_harness, log, seed, workdir
+from .common import NCPU, Report, ToolError, build_harness, log, seed, workdir, replay_witness
 
 
 def call(op, a=0, b=0, vals=()):
@@ -169,15 +169,22 @@ def c18(tier):
     rng = random.Random(sd)
     bins = build_harness(("release",))
     hv = bins["release"]
-    design_check(rep, tier)
+    rw = replay_witness()
     hists = []
-    for n, calls in tlc_histories(rep, tier):
-        hists.append((n, "tracked", calls))
-    for h in short_histories():
+    if rw:
+        live_v = {c["a"] for c in rw["calls"] if c["op"] in ("new", "withcap")} | {c["b"] for c in rw["calls"] if c["op"] == "clone"}
+        live_v -= {c["a"] for c in rw["calls"] if c["op"] in ("drop", "intoiter")}
+        live_i = {c["b"] for c in rw["calls"] if c["op"] == "intoiter"} - {c["a"] for c in rw["calls"] if c["op"] == "dropiter"}
+        hists.append((rw["n"], rw["elem"], finish(list(rw["calls"]), live_v, live_i)))
+    else:
+        design_check(rep, tier)
+        for n, calls in tlc_histories(rep, tier):
+            hists.append((n, "tracked", calls))
+    for h in ([] if rw else short_histories()):
         for n in (1, 2):
             hists.append((n, "tracked", h))
     nrand, length = (1500, 30) if tier == "quick" else (30000, 60)
-    for k in range(nrand):
+    for k in range(0 if rw else nrand):
         hists.append((1 + k % 2, "tracked" if k % 4 else "plain", random_history(rng, 1 + k % 2, length)))
     reqs = [{"op": "sv", "id": "s%d" % i, "n": n, "elem": el, "calls": calls} for i, (n, el, calls) in enumerate(hists)]
     answers = pool.simple_requests(hv, reqs, timeout=60.0)
